@@ -1,6 +1,6 @@
 (* C09 -- reported locations point at the right source text.  Statements only; proofs in Syntax/ParserProofs.v. *)
 From Coq Require Import List NArith ZArith Bool.
-From SliceV Require Import Syntax.Tokens Syntax.Lexer Syntax.Parser Syntax.ParserProofs Syntax.ParserProofs2.
+From SliceV Require Import Syntax.Tokens Syntax.Lexer Syntax.Parser Syntax.ParserProofs Syntax.ParserProofs2 Syntax.ParserProofs3.
 Import ListNotations.
 
 (* `written t pts` holds exactly when pts spell t AND every location inside t (the reference itself, nested references, scoped
@@ -18,6 +18,14 @@ Proof. exact typeref_written. Qed.
 Theorem C09_file_spans_exact : forall f pts, written_file f pts -> forall start,
   p_file (S (S (length pts))) (mkps pts None start []) = POk_ f (mkps [] None (last_end pts start) []).
 Proof. exact file_written. Qed.
+(* and for files with definitions of every kind (`written_enum`, `written_enumerator`, `written_iface`, `written_operation`,
+   `written_return`, `written_custom`, `written_alias` in Syntax/ParserProofs3.v): an enumeration or interface runs from its first
+   keyword to its name, an enumerator from its name to the end of its fields or value, an explicit value from the minus sign or
+   the literal to the literal's end, an operation from `idempotent` or its name to the closing parenthesis or the end of the return
+   type, a single return member over tag, stream marker and type, a custom type or alias from its keyword to its name *)
+Theorem C09_any_file_spans_exact : forall f pts, written_file_all f pts -> forall start,
+  p_file (S (S (length pts))) (mkps pts None start []) = POk_ f (mkps [] None (last_end pts start) []).
+Proof. exact file_written_all. Qed.
 (* rows and columns count characters from the start location: a line feed starts a new row at column 1 (CR is one more
    column on its line), any other character -- ASCII, tab or multi-byte -- advances the column by exactly one *)
 Theorem C09_columns_count_characters : forall l s, forallb (fun c => negb (c =? 10)%N) s = true ->
